@@ -3,6 +3,14 @@
 import json, os
 ROOT = os.path.dirname(os.path.abspath(__file__))
 CHECKS = {
+ "C09": dict(level="fault_enumeration", design="6 C09",
+   text="Single-fault sweep plus seeded exploration in the `term` profile (and the orphan clause also in `life`): nodes brought up by the real lifecycle controller carry generated pods, PDBs and volume attachments and are then deleted by users, expiry and repair while the REAL node.termination controller, terminator, eviction queue and NodeClaim finalizer run. Every seam call of the baselines is re-run with one fault (error-before, lost response, crash-after); further runs add random API/provider faults, slow or failing provider deletes, stuck pods and attachments, vanishing instances, restarts and clock jumps. At each finalizer-removing write the oracle checks, on what the removing task read plus provider ground truth: disruption taint present, no drainable pod in its pod list, no blocking attachment unless the deadline passed, provider answered NotFound and the instance is really gone (fast path only for NotReady nodes); for NodeClaims: no Node listed if registered and no acknowledged instance alive; end of run: no orphan instance.",
+   note="Trusted: simulator stubs (API server incl. graceful pod deletion and eviction subresource, provider with asynchronous termination, kubelet). Instances whose Create response was lost or whose creating incarnation crashed are counted, not flagged.",
+   technique="deterministic simulation + single-fault sweep over every seam call; read-set oracle at finalizer removal vs provider ground truth"),
+ "C10": dict(level="exploration", design="6 C10",
+   text="Seeded exploration in the `term` profile: pod mixes over the four priority tiers, owners, grace periods 0s-2h, do-not-disrupt (bool and durations), disruption-taint tolerations, terminating and stuck pods; PDBs whose budget changes during the drain; NodeClaims with and without terminationGracePeriod; deadlines moved earlier and later while pods sit in the eviction queue; drain passes and queue reconciles interleaved; clock jumps across deadline - grace. Oracles at the seams with own definitions: removals are evictions, or Deletes with grace >= 1 on a node that has a deadline and only once the pod's grace would pass the earliest deadline it was queued under; no eviction of do-not-disrupt / static / tolerating pods (judged on the version the queue read); tier order judged on the pod list of the drain pass that enqueued the pod; deadline never extended while queued.",
+   note="Trusted: simulator stubs; queue membership is observed through Queue.Has() after every step. After a restart or a completed-and-re-added queue entry the deadline legitimately restarts from the current annotation.",
+   technique="deterministic simulation, seeded interleaving of drain passes and eviction-queue reconciles, read-set oracles at eviction/Delete seams"),
  "C11": dict(level="exploration", design="6 C11",
    text="Seeded exploration: thousands of simulated runs in which random Node/NodeClaim/Pod/DaemonSet histories are applied to a simulated API server while the REAL state informers and state.Cluster run under seeded delivery orders, cache lag and reconcile interleavings; at every quiescent point the incremental state is compared with a fresh state.Cluster built by the same real informers from the API objects. Sampling, not proof; the right level because the property quantifies over unbounded histories and delivery orders.",
    note="Trusted: simulator stubs for API server, cache, work queues (sim/store.go, cache.go, manager.go); the from-scratch path of state.Cluster itself (differential oracle). Generator restrictions listed in DESIGN.md 6/C11.",
@@ -12,8 +20,8 @@ CHECKS = {
    note="Trusted: simulator stubs (API server, cache, provider, kubelet, clock). Preemption happens at seam calls only. Duplicate creates across a crash are counted, not flagged (the property's wording).",
    technique="deterministic simulation + single-fault sweep over every seam call (err-before / err-after / crash-after)"),
  "C16": dict(level="exploration", design="6 C16",
-   text="Seeded exploration in the `life` profile: expiration, NodeClaim garbage collection and the liveness check (real controllers) run while instances vanish, provider listings lag, nodes flap Ready, the clock jumps onto thresholds and API / provider reads fail. Every Delete(NodeClaim) is attributed to its controller and judged against what that task was actually told (read-set rule): expiry time reached, instance absent from the listing it received AND node lookup succeeded with no Ready node, launch/registration timeout elapsed. The node-repair clause is decided in the `term` profile when built.",
-   note="Trusted: simulator stubs. Node repair (20% breaker) not yet covered by this check.",
+   text="Seeded exploration in the `life` profile: expiration, NodeClaim garbage collection and the liveness check (real controllers) run while instances vanish, provider listings lag, nodes flap Ready, the clock jumps onto thresholds and API / provider reads fail. Every Delete(NodeClaim) is attributed to its controller and judged against what that task was actually told (read-set rule): expiry time reached, instance absent from the listing it received AND node lookup succeeded with no Ready node, launch/registration timeout elapsed. The node-repair clause (toleration elapsed, 20% breaker on the node list the task received) is decided in the `term` profile, which this check also runs.",
+   note="Trusted: simulator stubs.",
    technique="deterministic simulation, seeded fault injection on reads, read-set oracle at the Delete seam"),
  "C20": dict(level="exploration", design="6 C20",
    text="Seeded exploration: real Registration / Liveness reconcilers and the registration-health controller record launch outcomes for 1-2 pools over 20-120 simulated minutes with nodes that never register, resets by NodePool edits, restarts and re-hydration. Hook H2 reports each recorded outcome; a 4-slot window model fed with that order is compared with State.Status, with State.DryRun for both next outcomes, and with the NodeRegistrationHealthy value the reconcile wrote. Probe window-wrapped must be hit.",
